@@ -63,7 +63,7 @@ impl RecSpec {
             "A" => RecSpec::Auth { ts: ts(f[1]), payload: f[2].parse().unwrap(), key: f[3].parse().unwrap(), sts: ts(f[4]), spayload: f[5].parse().unwrap() },
             "T" => RecSpec::Trusted {
                 ts: ts(f[1]),
-                payload: f[2].parse().unwrap(),
+                payload: if f[3] == "-" { 0 } else { f[2].parse().unwrap() },
                 ids: if f[3] == "-" { vec![] } else { f[3].split(',').map(|x| x.parse().unwrap()).collect() },
             },
             other => panic!("bad record kind {other}"),
@@ -637,7 +637,9 @@ fn gen_set(rng: &mut Rng, node: u64, n: usize, distinct: bool) -> Vec<RecSpec> {
             81..=84 => RecSpec::Trusted { ts, payload, ids: vec![node, node] },
             85..=92 => RecSpec::Trusted { ts, payload, ids: vec![other] },
             93..=96 => RecSpec::Trusted { ts, payload, ids: if rng.chance(1, 2) { vec![node, other] } else { vec![other, node] } },
-            _ => RecSpec::Trusted { ts, payload, ids: vec![] },
+            // no addresses at all: the address vector is empty whatever the payload id, so the id is canonically 0
+            // (two such records with equal timestamps are the same value for the implementation)
+            _ => RecSpec::Trusted { ts, payload: 0, ids: vec![] },
         };
         recs.push(r);
         // exact re-delivery of an earlier record
